@@ -4,6 +4,41 @@ import json, subprocess
 BASE = json.load(open('/root/.vp/BASELINE.json'))
 ENV = "env -u GOWORK GOFLAGS=-mod=mod GOPROXY=off GOSUMDB=off GOTOOLCHAIN=local"
 CLAIMED = {
+ "C03": dict(
+   technique="static analysis: operator->kernel table evaluation (SSA terms), exhaustive truth-table evaluation of the boolean element closures, provenance of the driver's operands, guarded-Repeat / full-traversal / Shape.Eq rules on the broadcast helpers",
+   text="Decides the wiring, not the arithmetic: each of the 12 operators calls the shared driver with (inputs[0], inputs[1]) in order, its ONNX kernel (tensor.Add/Sub/Mul/Div/ElEq/Gt/Gte/Lt/Lte, or a boolean closure whose truth table is evaluated exhaustively) and the multidirectional mode; the driver broadcasts (A,B) in order and applies op(A',B') in order; the boolean loop reads A, B and writes the output at one iterator coordinate; required dtypes are admitted; the broadcast helpers stretch only extent-1 axes, visit every axis, and never decide shape equality with gorgonia's lax Shape.Eq.",
+   note="Level 'other', narrow. Not decided: IEEE-754 / wrap-around values and element placement (gorgonia kernels and Repeat).",
+   ref="DESIGN.md §4 R7 R6 R10 R22 R23; §5 C03"),
+ "C04": dict(
+   technique="static analysis: dependency-shape rules over SSA terms of every success return (which input/attribute reaches which term), guarded-Repeat rule for MatMul's batch broadcasting",
+   text="Gemm's, Scaler's and LinearRegressor's success returns are rendered as terms over gorgonia calls, inputs and attribute fields and must be exactly alpha*(op(A) op(B)) [+ unidirectionally broadcast beta*C], (X - offset)*scale and X*coefficients + intercepts, with transposes conditional on their own flags and the coefficient layout (targets, n/targets)^T; any additional result path (a fast path that bypasses the unidirectional broadcast of C) is a violation. MatMul's batch broadcasting starts at axis len-3 and only stretches extent-1 axes.",
+   note="Level 'other', narrow: a who-must-call rule on today's factoring (a behaviour-equal re-implementation is reported too; stated in DESIGN). Not decided: numeric accuracy, gorgonia's MatMul/Transpose, every rank combination of MatMul's vector promotion.",
+   ref="DESIGN.md §4 R16 R10; §5 C04"),
+ "C05": dict(
+   technique="static analysis: abstract dimension-index kinds over every index expression of Conv (FULL/SPATIAL/PADS lists x index kinds), loop/coordinate pairing rules on the sliding-window nests, partition rule on auto_pad comparisons, ownership and attribute-state rules",
+   text="Square fixtures cannot tell axes apart; the rules constrain which axis an expression may talk about: K1 classifies all ~60 index expressions in Conv's methods (a per-tensor-axis list may only be indexed by a constant, a non-spatial, a full-range or a spatial+2 index, ...); K2 pairs, per spatial axis k, the window start (step strides[k], bound = padded extent 2+k), the output index (start/strides[k], limited by output extent 2+k) and its SetAt position 2+k; K3 pairs batch and kernel indices; K4 requires every auto_pad mode to be told apart and unknown modes refused; bias is not modified (R3); Apply does not overwrite attributes (R21).",
+   note="Level 'other'. One known finding (auto_pad=VALID computed as SAME_UPPER, pinned by the suite). Not decided: the multiply-accumulate itself, zero insertion for dilation, padding by concatenation.",
+   ref="DESIGN.md §4 R11; §5 C05"),
+ "C06": dict(
+   technique="static analysis: slot-provenance rules over SSA def-use (which block of the packed W/R/B/P tensors reaches which gate operand), role derivation from the callee's Gemm operands, term rules for state updates and output shapes, attribute honoured-or-refused rule",
+   text="Gate-order and bias-slot swaps pass zero-bias fixtures; provenance sees them whatever the values: extractors return block k as result k (P1); every gate uses W[k], R[k] and the bias pair {B[k], B[k+n]} of one slot, each slot exactly once (P3); LSTM: C_t = f(.)C_{t-1} + i(.)c with f=slot 2, peepholes Pi,Po,Pf on slots 0,1,2, o reads C_t, activations f/g/h; GRU: H_t = (1-z)(.)h~ + z(.)H_{t-1}, reset gate and linear_before_reset forms (P4); state threading and fresh clones of the final state (P5); output shapes from X.Shape()[0], X.Shape()[1] (P6); per-step slice on axis 0 only (P7); attributes honoured or refused (R8), activations length checked (R9c). 'Consistent under splitting' is reduced to: the step has no state besides the loop-carried tensors and the final state returned is what the next call receives as initial state.",
+   note="Level 'other'. Not decided: the arithmetic of a step, float64, numeric agreement of whole vs split runs beyond the structural argument.",
+   ref="DESIGN.md §4 R12 R8 R9; §5 C06"),
+ "C10": dict(
+   technique="static analysis: operator->function table over SSA terms, dtype-case/generic-instantiation pairing, truth-table evaluation (Not), control-dependence rule for PRelu's kernel, mask-multiplication rule",
+   text="Each of the 17 operators is tied to its function: 11 generic closures must be T(math.F(float64(x))) with the [float32] instance under case Float32 and [float64] under Float64; Abs/Tanh delegate to gorgonia; Sigmoid has the dependency shape 1/(1+exp(-x)); Relu is max(x,0) - never x*(x>0), which is NaN at -Inf (R18); Not's closure has truth table 10; PRelu broadcasts the slope unidirectionally and its kernel applies the slope only on the x<0 branch; Data() of possibly rank-0 operands passes the scalar wrapper.",
+   note="Level 'other', narrow. Not decided: rounding error bounds, gorgonia's Tanh/Exp/Abs.",
+   ref="DESIGN.md §4 R7 R18 R20; §5 C10"),
+ "C11": dict(
+   technique="static analysis: exhaustive enum<->Go-type table evaluation (AST + go/types) for Cast's 10 targets x 10 sources, alias-flow rule for direct conversion, Constant attribute table, ConstantOfShape gates",
+   text="The 10x10 Cast pairs are a finite table read off the code: each numeric target code instantiates the element converter with its Go type, non-numeric and unknown targets return an error; each source dtype asserts its own []T; the converter is fed the input's own backing (not a widened copy, which loses 64-bit integers); out[i] = R(in[i]); the scalar wrapper covers every source type Cast admits. Constant: attribute name -> getter -> ONNX element type, refusals, exactly one attribute. ConstantOfShape: float32(0) default, one-element value, positive extents, result type from the value.",
+   note="Level 'other', exhaustive over the tables. Value conversion semantics are Go's conversion (= C conversion) by the language spec. Not decided: out-of-range float->int conversions (implementation-defined in Go).",
+   ref="DESIGN.md §4 R14; §5 C11"),
+ "C16": dict(
+   technique="static analysis: structural necessary conditions only (Conv batch-index pairing, recurrent time-slice on axis 0, output reshape provenance, guarded Repeat in per-sample operators, attribute state)",
+   text="The statement is a numeric equivalence between batched and single evaluation, which this family cannot decide. Claimed are five structural conditions whose violation provably breaks per-sample independence: the Conv window's sample index is the output's sample index; the recurrent per-step slice cuts axis 0 only; recurrent outputs are reshaped with batch = X.Shape()[1]; every Repeat in Conv/Gemm/MatMul/recurrent code stretches only extent-1 axes (a tiled peephole vector makes weights depend on batch position); Apply does not carry input-derived state between calls.",
+   note="Level 'other', very narrow: NOT decided - the property itself (numeric equality of batched and single evaluation).",
+   ref="DESIGN.md §5 C16"),
  "C07": dict(
    technique="static analysis: forward taint of user-supplied axes with dominance checks for two-sided range validation, negative normalisation and duplicate rejection; ownership analysis for clone-before-Reshape; scalar-unwrapping rule on Data() assertions",
    text="The refusal clauses of the property ('out-of-range / duplicate axes ... yield an error, never a tensor') are decided on the code shape: every use of a user-supplied axis (attribute or axes tensor) as Go index, slice bound or selection must be dominated - locally, at every call site, or on the err==nil edge of a validating callee - by a rejecting two-sided range check on that same value (not on some other value, which is how the Squeeze defect hid), must have passed the `x + rank` normalisation, and axis sets must be sorted and checked for duplicates. The 'same elements in the same order' clause is reduced to clone-before-Reshape (E2: no Reshape on borrowed storage) plus gorgonia's Reshape contract. Data() of a possibly rank-0 tensor must pass the scalar wrapper before a slice assertion.",
